@@ -217,10 +217,17 @@ impl Resolver {
         // O_CREAT cannot be emulated by the O_PATH resolver (and in the
         // fallback case the flag gets silently ignored unless you also set
         // O_EXCL) so we need to explicitly return an error if it is provided.
-        if flags.intersects(OpenFlags::O_CREAT | OpenFlags::O_EXCL) {
+        // O_TMPFILE creates something as well (an unnamed file in the directory
+        // the path names): openat2 would happily do that, the O_PATH resolver
+        // refuses it in reopen(). O_TMPFILE is O_DIRECTORY plus a second bit, so
+        // test that second bit on its own.
+        if flags.intersects(OpenFlags::O_CREAT | OpenFlags::O_EXCL)
+            || flags.bits() & (libc::O_TMPFILE & !libc::O_DIRECTORY) != 0
+        {
             Err(ErrorImpl::InvalidArgument {
                 name: "oflags".into(),
-                description: "open flags to one-shot open cannot contain O_CREAT or O_EXCL".into(),
+                description:
+                    "open flags to one-shot open cannot contain O_CREAT, O_EXCL or O_TMPFILE".into(),
             })?
         }
 
